@@ -166,3 +166,24 @@ def is_const(t, value, tol: float = 1e-12) -> bool:
 def monomials(t) -> dict:
     p = poly(t) or {}
     return {m: c for m, c in p.items() if abs(c) > EPS}
+
+
+def normalised_by_own_norm(t):
+    """X if `t` is X·(1/‖X‖) — one monomial, coefficient 1, atoms X and inv(X.norm()[.item()]) — else None."""
+    mons = monomials(t)
+    if len(mons) != 1:
+        return None
+    (m, c), = mons.items()
+    if abs(c - 1) > 1e-12 or len(m) != 2:
+        return None
+    inv = [a for a in m if isinstance(a, tuple) and a and a[0] == "inv"]
+    rest = [a for a in m if not (isinstance(a, tuple) and a and a[0] == "inv")]
+    if len(inv) != 1 or len(rest) != 1:
+        return None
+    den = inv[0][1]
+    while isinstance(den, tuple) and den and den[0] == "mcall" and den[2] in ("item", "cpu", "real"):
+        den = canon(den[1])
+    x = canon(rest[0])
+    if isinstance(den, tuple) and den and den[0] == "mcall" and den[2].split(".")[-1] == "norm" and canon(den[1]) == x:
+        return rest[0]
+    return None
